@@ -12,6 +12,8 @@
 #include <memory>
 #include <mutex>
 #include <sys/uio.h>
+#include <sys/ioctl.h>
+#include <cstdarg>
 #include <unistd.h>
 #include <dirent.h>
 #include <sys/stat.h>
@@ -378,6 +380,25 @@ ssize_t __wrap_write(int fd, const void *buf, size_t n) {
 ssize_t __wrap_writev(int fd, const struct iovec *iov, int cnt) {
     if (!sim::fd_is_sim(fd)) return __real_writev(fd, iov, cnt);
     return sim::sim_write(fd, iov, cnt);
+}
+int __real_ioctl(int, unsigned long, ...);
+// libstdc++'s showmanyc() (in_avail / readsome) asks FIONREAD: answer it for simulated files
+int __wrap_ioctl(int fd, unsigned long req, ...) {
+    va_list ap;
+    va_start(ap, req);
+    void *arg = va_arg(ap, void *);
+    va_end(ap);
+    if (req == FIONREAD && sim::fd_is_sim(fd)) {
+        sim::HarnessScope hs;
+        std::lock_guard<std::mutex> lk(sim::g_mu);
+        auto it = sim::g_open.find(fd);
+        if (it != sim::g_open.end()) {
+            uint64_t size = it->second.f->data.size(), pos = it->second.pos;
+            *static_cast<int *>(arg) = static_cast<int>(pos < size ? (size - pos > 0x7fffffff ? 0x7fffffff : size - pos) : 0);
+            return 0;
+        }
+    }
+    return __real_ioctl(fd, req, arg);
 }
 off64_t __wrap_lseek64(int fd, off64_t off, int whence) {
     if (!sim::fd_is_sim(fd)) return __real_lseek64(fd, off, whence);
